@@ -339,6 +339,7 @@ func TestVerifReplay(t *testing.T) {
 type bmcStepJSON struct {
 	Threads []int  `json:"threads"`
 	Park    bool   `json:"park"`
+	NoGrant []int  `json:"nogrant"` // threads whose step is the completion of a blocking receive: natively the sender's step completes it, no permission is consumed
 	Clock   uint64 `json:"clock"`
 	Desc    string `json:"desc"`
 }
@@ -383,6 +384,9 @@ func (w *World) ReplayBMC(id string, bs BMCSpec, sys *bmcSystem, ob *obligation,
 					st.Threads = append(st.Threads, t)
 					if tx.first.Kind == "park" {
 						st.Park = true
+					}
+					if tx.first.Kind == "recv" {
+						st.NoGrant = append(st.NoGrant, t)
 					}
 					st.Desc += fmt.Sprintf("%s:%s@%s ", sys.trees[t].name, tx.first.Kind, posOf(tx.first))
 					key := fmt.Sprint(t)
